@@ -199,6 +199,49 @@ fn case(world: &World, runs: Vec<RunSpec>, memo: usize) -> Value {
     json!({ "scenario": to_json(&scn), "memo": memo })
 }
 
+/// Adds `delta` to every time stamp of a serialised scenario.
+fn shift_times(value: &mut Value, delta: i64) {
+    const KEYS: [&str; 8] = [
+        "now", "this_update", "next_update", "not_before", "not_after",
+        "ee_not_before", "ee_not_after", "revocation_time",
+    ];
+    match value {
+        Value::Object(map) => {
+            for (key, item) in map.iter_mut() {
+                if KEYS.contains(&key.as_str()) {
+                    if let Some(t) = item.as_i64() { *item = json!(t + delta) }
+                }
+                else {
+                    shift_times(item, delta)
+                }
+            }
+        }
+        Value::Array(list) => list.iter_mut().for_each(|item| shift_times(item, delta)),
+        _ => { }
+    }
+}
+
+/// 2050-01-01T00:00:00Z: from here on X.509 times are GeneralizedTime.
+const Y2050: i64 = 2_524_608_000;
+
+/// The versions whose stored copy a careless consistency test could take
+/// for broken: BER framed manifest (two forms), manifest with a stray
+/// trailing byte, BER framed manifest *and* ROA, 20-octet manifest number.
+/// Index 0 is the plain older version, the last index a plain newest one.
+fn special_world() -> World {
+    let mut world = world_with(&[
+        ("1", TU), ("2", TU + 10), ("2", TU + 10), ("2", TU + 10), ("2", TU + 10),
+        (MAX20_1, TU + 10), (MAX20, TU + 20),
+    ]);
+    let kid = world.ca_mut("kid").unwrap();
+    kid.versions[1].mft_publish = Publish::Ber;
+    kid.versions[2].mft_publish = Publish::BerLongLen;
+    kid.versions[3].mft_publish = Publish::Corrupt;
+    kid.versions[4].mft_publish = Publish::Ber;
+    kid.versions[4].objects[0].publish = Publish::Ber;
+    world
+}
+
 const MAX20: &str = "7fffffffffffffffffffffffffffffffffffffff";
 const MAX20_1: &str = "7ffffffffffffffffffffffffffffffffffffffe";
 const BIG: &str = "0100000000000000000000";
@@ -255,6 +298,41 @@ fn generate(ctx: &mut Ctx) -> Vec<Value> {
             run(T0 + 120, stored, 9, vec![]),
         ], 1));
     }
+    // D. Stored copies a refactored consistency test could misjudge, each followed by a
+    //    replay of the older version: lax mode, and strict mode (where BER is refused at once).
+    let special = special_world();
+    for strict in [false, true] {
+        for s in 1..=5usize {
+            if strict && !matches!(s, 1 | 2 | 4) { continue }
+            ctx.nontrivial(format!("special {s} strict={strict}"));
+            let scn = Scenario {
+                world: special.clone(),
+                opts: EngineOpts { strict, ..Default::default() },
+                runs: vec![
+                    run(T0, 0, 11, vec![]), run(T0 + 60, s, 12, vec![]),
+                    run(T0 + 120, 0, 13, vec![]), run(T0 + 180, s, 14, vec![]),
+                    run(T0 + 240, 6, 15, vec![]), run(T0 + 300, s, 16, vec![]),
+                ],
+            };
+            cases.push(json!({ "scenario": to_json(&scn), "memo": 1 }));
+        }
+    }
+    // E. The same rules across 2050-01-01 (UTCTime / GeneralizedTime switch in certificates
+    //    and CRLs): thisUpdate one second before, at, and one second after the boundary.
+    let boundary = world_with(&[("1", TU + 99), ("2", TU + 100), ("3", TU + 99), ("2", TU + 101)]);
+    let delta = Y2050 - (TU + 100);
+    for (k, seq) in [[0usize, 1, 0], [1, 2, 1], [3, 2, 0], [0, 3, 1]].iter().enumerate() {
+        ctx.nontrivial(format!("y2050 {seq:?}"));
+        let scn = Scenario {
+            world: boundary.clone(), opts: EngineOpts::default(),
+            runs: seq.iter().enumerate().map(|(i, v)| {
+                run(T0 + 60 * i as i64, *v, 20 + k as u64, vec![])
+            }).collect(),
+        };
+        let mut value = to_json(&scn);
+        shift_times(&mut value, delta);
+        cases.push(json!({ "scenario": value, "memo": 1 }));
+    }
     cases
 }
 
@@ -263,7 +341,10 @@ pub fn run_c05(ctx: &mut Ctx) {
         grid number in {1,2} x thisUpdate in {t,t+1}; random 3-5 run histories over 8 versions with \
         manifest numbers 0, 1, 2, 2^64-1, 2^80, 2^159-2, 2^159-1 (equal numbers with different \
         thisUpdate included); stored copies made inconsistent by rewriting the cached number / \
-        thisUpdate in the store file. Non-trivial = distinct version sequence".into();
+        thisUpdate in the store file; stored copies a careless consistency test could misjudge \
+        (BER framed manifest in two forms, trailing byte, BER manifest + BER ROA, 20-octet number) \
+        each followed by a replay of the older version, lax and strict; histories across \
+        2050-01-01. Non-trivial = distinct version sequence".into();
     let mut player = Player::new();
     let inputs = match ctx.replay_inputs() {
         Some(inputs) => inputs,
